@@ -80,9 +80,7 @@ def absent(enc, like):
 
 def kf_for(enc, mask, det, J):
     """mechanism predicate of the known findings (mask[0] = lowpass, mask[j] = level j)"""
-    if enc == '1d-empty':
-        return KF_ENC
-    if mask[0]:
+    if mask[0] and mask[J]:                # nothing left to take the lowpass size from
         return KF_LOW
     for j in range(1, J):                  # levels below the coarsest: the lowpass coming up may need a crop
         if mask[j] and (det[j - 1][0] % 2 == 1 or det[j - 1][1] % 2 == 1):
